@@ -17,6 +17,8 @@ import (
 
 var c02Weights = []weighted{{"claim", 16}, {"propose", 6}, {"advance", 4}, {"delete", 3}, {"create", 1}, {"deposit", 1}}
 
+var c02RoundTrips int
+
 // c02Claimed checks Query/Claimed against the paid set, in both directions, for every tuple
 // ever offered and on every bridge.
 func c02Claimed(w *l1World, offered map[string]wd) error {
@@ -65,6 +67,13 @@ func TestC02Rapid(t *testing.T) {
 				for k, v := range w.bridges[id].Paid {
 					paidBefore[fmt.Sprintf("%d|%s", id, k)] = v
 				}
+			}
+			if rapid.IntRange(0, 24).Draw(rt, "roundtrip") == 0 {
+				// the chain is exported and restarted from its genesis in the middle of the history:
+				// what has been paid stays paid
+				w.e = importL1(w.e, w.e.K.ExportGenesis(w.e.Ctx))
+				w.logf("genesis export -> import")
+				c.Class("genesis-round-trip-inside-history")
 			}
 			pre := w.balances()
 			st := w.step(rt)
